@@ -299,3 +299,6 @@ class Indicators(HoloPyObject):
 
     def __call__(self, points):
         return [test(points) for test in self.functions]
+
+    def __len__(self):
+        return len(self.functions)
